@@ -490,6 +490,17 @@ def truncate(data, family, keep):
     return out.encode('latin-1')
 
 
+def cut(data, spec):
+    """broken copy: the file cut after `line` lines (optionally in the middle of that line); outside the property's
+    quantifier — used only to compare the model with the reader on their error and non-termination paths"""
+    lines = data.split(b'\n')
+    k = max(1, min(len(lines) - 1, spec['line']))
+    out = b'\n'.join(lines[:k]) + b'\n'
+    if spec.get('partial'):
+        out += lines[k][:max(1, len(lines[k]) // 2)]
+    return out
+
+
 def variant_bytes(rel, family, vspec):
     """bytes of a variant of a shipped file.  vspec: {'kind': 'orig'} | {'kind': 'perturb', ...} |
     {'kind': 'truncate', 'keep': k} | {'kind':'perturb+truncate', ...}"""
@@ -500,6 +511,8 @@ def variant_bytes(rel, family, vspec):
         data, info = perturb(data, family, vspec)
     if 'truncate' in kind:
         data = truncate(data, family, vspec['keep'])
+    if kind == 'cut':
+        data = cut(data, vspec)
     return data, info
 
 
@@ -916,6 +929,99 @@ def job_c05(job):
     return res
 
 
+def job_broken(job, progress):
+    """open a cut copy with the real reader and show the last result: outcome = exception class, or the view digest data"""
+    import numpy as np
+    rel, family, vspec = job['rel'], job['family'], job['vspec']
+    path, _ = variant_path(job['tmp'], rel, family, vspec)
+    res = dict(rel=rel, vspec=vspec, path=str(path))
+    progress({'stage': 'open'})
+    try:
+        lst = open_listing(path)
+    except Exception as e:
+        res['open'] = 'exc:' + type(e).__name__
+        return res
+    res['open'] = 'ok'
+    res['n'] = lst.num_fulltimes
+    progress({'stage': 'index'})
+    try:
+        lst.index = -1
+        v = dump_view(lst)
+        d = Path(job['tmp']) / 'dumps'
+        d.mkdir(exist_ok=True)
+        f = d / ('b_' + hashlib.sha256(json.dumps([rel, vspec], sort_keys=True).encode()).hexdigest()[:16] + '.npz')
+        meta = dict(index=v[0], time=bits(v[1]), step=v[2], tables=[])
+        arrs = {}
+        for name in sorted(v[3]):
+            rows, cols, m = v[3][name]
+            meta['tables'].append(dict(name=name, rows=[list(r) if isinstance(r, tuple) else r for r in rows], cols=cols))
+            arrs['t_' + name] = m
+        np.savez(f, meta=np.array(json.dumps(meta)), **arrs)
+        res['last'] = str(f)
+    except Exception as e:
+        res['last'] = 'exc:' + type(e).__name__
+    lst.close()
+    return res
+
+
+def broken_facet(ctx, res, n_cuts):
+    """facet listing_broken: cut copies of shipped files (anywhere, also inside a table or a line): the reader raises, spins
+    (no answer within the time limit) or opens; the model must raise the same class, be `diverges`, or show the same tables"""
+    rng = ctx.rng('c05-broken')
+    files = corpus()
+    jobs = []
+    for k in range(n_cuts):
+        rel, family = files[rng.randrange(len(files))]
+        nlines = (listing_base() / rel).read_bytes().count(b'\n')
+        sc_hint = rng.random()
+        line = rng.randrange(1, nlines) if sc_hint < 0.5 else max(1, nlines - rng.randrange(1, 400))
+        jobs.append(dict(rel=rel, family=family, tmp=str(ctx.tmp), vspec={'kind': 'cut', 'line': line, 'partial': rng.random() < 0.3}))
+    outs = run_jobs('job_broken', jobs, timeout=ctx.n(8, 20), nworkers=6)
+    f = res.facet('listing_broken')
+    lines = []
+    for job, r in zip(jobs, outs):
+        path, _ = variant_path(job['tmp'], job['rel'], job['family'], job['vspec'])
+        od = '1' if str(path).endswith('OUTPUT_DATA') else '0'
+        lines += ['open %s %s -' % (hexs(str(path)), od), 'index -1', 'view']
+    rep = core.run_driver('drv_c05', lines)
+    for k, (job, r) in enumerate(zip(jobs, outs)):
+        o, a, v = rep[3 * k: 3 * k + 3]
+        f['cases'] += 1
+        case = dict(file=job['rel'], variant=job['vspec'])
+        model_open = 'ok' if o.startswith('ok') else 'exc:' + o.split(' ')[1]
+        if isinstance(r, Timeout):
+            if (r.info or {}).get('stage') == 'index':
+                r = dict(open='ok', last='exc:diverges')
+                real_open = 'ok'
+            else:
+                real_open = 'exc:diverges'
+        else:
+            real_open = r['open']
+        res.count('broken:open:' + real_open)
+        d = None
+        if model_open != real_open:
+            d = ('open: ' + model_open, 'open: ' + ('no answer (spins)' if isinstance(r, Timeout) else real_open))
+        elif real_open == 'ok':
+            model_last = 'ok' if a.startswith('ok') else 'exc:' + a.split(' ')[1]
+            real_last = 'ok' if not r['last'].startswith('exc:') else r['last']
+            res.count('broken:last:' + real_last)
+            if model_last != real_last:
+                d = ('index -1: ' + model_last, 'index -1: ' + real_last)
+            elif real_last == 'ok':
+                mv = parse_view(v)
+                rv = load_dump(r['last'])
+                if mv[0] != rv[0] or bits(mv[1]) != bits(rv[1]) or mv[2] != rv[2] or sorted(mv[3]) != sorted(rv[3]):
+                    d = ('view header %r' % (mv[:3],), 'view header %r' % (rv[:3],))
+                else:
+                    for name in rv[3]:
+                        if mv[3][name][0] != rv[3][name][0] or mv[3][name][1] != rv[3][name][1] or not bit_equal(mv[3][name][2], rv[3][name][2]):
+                            d = ('table %s differs' % name, '(see model)')
+                            break
+        if d:
+            f['disagreements'] += 1
+            res.disagreements.append(dict(facet='listing_broken', case=case, model=d[0], impl=d[1]))
+
+
 # ====================================================================== worker pool with per-job timeouts
 
 def _worker_main(conn, fname_module, fname):
@@ -1168,6 +1274,7 @@ def run(ctx):
     res.facet('oracle_tables')['cases'] = res.stats.get('tables-checked', 0)
     if ctx.model_ok:
         correspond(ctx, res, jobs, results)
+        broken_facet(ctx, res, ctx.n(24, 300))
     if not ctx.quick:
         try:
             measure_reach(ctx, res)
